@@ -13,6 +13,7 @@ def dispatch (name : String) (lines : List String) : Option (List String) :=
   | "smartlist" => some (Sympler.SmartList.driver lines)
   | "verlet" => some (Sympler.Verlet.driver lines)
   | "kernels" => some (Sympler.KernelsDrv.driver lines)
+  | "dataformat" => some (Sympler.DataFormat.driver lines)
   | "stages" => some (Sympler.Stages.driver lines)
   | _ => none
 
